@@ -232,4 +232,11 @@ class DictField(Field):
         """
         if not self._use_proxy:
             return value
+        if isinstance(value, dict):
+            value = {
+                self.key_field.to_python(cfg, key): self.value_field.to_python(  # type: ignore
+                    cfg, val
+                )
+                for key, val in value.items()
+            }
         return DictProxy(cfg, self, value)
